@@ -6,10 +6,9 @@ CHECK_DEADLOCK FALSE
 CONSTANTS
   Mode = "wrap"
   MaxDepth = 3
-  WrapSet = "full"
+  W1 = "full"
+  W2 = "full"
+  W3 = "full"
   SlRange = 2
   EmitAst = FALSE
-  ExcludeFilterOnNonArray = TRUE
-  ExcludeMergeNoOverride = TRUE
-  ExcludeNotBeforePipe = TRUE
-  ExcludePipeIntoLiteral = TRUE
+  KnownDeviations = {"filter-on-non-array", "merge-no-override", "operator-before-pipe", "pipe-into-literal", "argument-context-leak", "projection-skips-null", "sort-singleton", "null-vs-reference-equality", "parenthesised-operand", "multiselect-leading-star", "by-key-error-ignored"}
